@@ -7,8 +7,7 @@ set -u
 cd "$WT" || exit 2
 [ -f SEEDED/patch.diff ] || { echo "no patch"; exit 2; }
 # start from a clean source tree (keep SEEDED/)
-git stash -q --include-untracked -- . ':!SEEDED' 2>/dev/null || true
-git checkout -q -- . 2>/dev/null
+git checkout -q -- . 2>/dev/null; git clean -q -fd -- pumpkin-solver drcp-format 2>/dev/null
 git apply SEEDED/patch.diff || { echo "patch does not apply"; exit 2; }
 SUITE=$(cargo nextest run --workspace --no-fail-fast --offline --test-threads 8 2>&1 | grep -E "Summary|FAIL \[" | sort -u | tr '\n' ' ')
 bash SEEDED/demo/run.sh > /tmp/confirm_$NAME.with.log 2>&1; WITH=$?
